@@ -147,9 +147,11 @@ def judge_group(ys, out):
     seen = set()
     records = []
     okeys = []
+    members = []
     try:
         for y in ys:
             yy = G.fresh(y)
+            members.append(yy)
             records += list(yy.__frisky_graph__(seen=seen))
             okeys += yy.__frisky_output_keys__()
     except NotImplementedError:
@@ -175,6 +177,21 @@ def judge_group(ys, out):
             if E.compare(values[str(k)], b, exact=False, dtype=True):
                 return ("group-value", "", f"block {k} differs between the union of records and the dask graph")
     out.count("groups_checked")
+    # history: the SAME objects, walked in a group before, are now asked alone:
+    # each must again give a complete graph of its own
+    for i, yy in enumerate(members):
+        try:
+            recs = list(yy.__frisky_graph__())
+            vals, err = execute_records(recs)
+        except NotImplementedError:
+            continue
+        except Exception as e:  # noqa: BLE001
+            return ("alone-after-group-raise", E.exc_sig(e), f"member {i}: {type(e).__name__}: {str(e)[:200]}")
+        if err:
+            return ("alone-after-group-" + err[0], "", f"member {i} asked alone after a group walk: {err[1]}")
+        for k in yy.__frisky_output_keys__():
+            if k not in vals:
+                return ("alone-after-group-output-missing", "", f"member {i} asked alone after a group walk: output key {k} not produced")
     return None
 
 
@@ -185,12 +202,24 @@ def _judge_with_groups(y, ref, exact, check_dtype, out=None):
 
 # layers that build cross-layer references with NumPy integer coordinates, and
 # fused expressions reading one source at several sites under different block maps
-_EXTRA = ["diagonal", "diagonal_off1", "trace", "vindex_pts", "sq_plus_T", "where_gt_T", "sub_T_mul", "tdot", "outer", "dot_T", "einsum_sum", "einsum_all", "diag", "tril"]
-_SQUARE = [E.src((4, 4), ((2, 2), (1, 3)))]
+_EXTRA = ["median0", "mb_dropaxis_sum", "bw_concat_sum", "apply_along0", "plus_ones_same", "mul_full_same", "diagonal", "diagonal_off1", "trace", "vindex_pts", "sq_plus_T", "where_gt_T", "sub_T_mul", "tdot", "outer", "dot_T", "einsum_sum", "einsum_all", "diag", "tril"]
+# (a 6-block axis whose ragged block sits where the fused-blockwise fast path does not probe)
+_SQUARE = [E.src((4, 4), ((2, 2), (1, 3))), E.src((11,), ((2, 2, 1, 2, 2, 2),))]
+
+def _quick(seed):
+    S = X.std_sources("quick")
+    main = [S[1], S[7], S[10]]  # (6,) in (2,1,3); (3,4) in ((2,1),(1,3)); zero-size
+    ops = OPS.REWRITE + OPS.subset(names=_EXTRA)
+    extra = OPS.subset(names=_EXTRA + ["add1", "T", "sl_1_4", "sum0", "rc2", "tk_201", "cat_self"])
+    shards = E.plan_shards(main, ops, 2)
+    shards += E.plan_shards(_SQUARE, ops, 1)
+    shards += E.plan_shards(_SQUARE, extra, 2)
+    return shards, {"depth2": {"ops": len(ops), "sources": len(main)}, "square_and_ragged_sources": {"depth1_ops": len(ops), "depth2_ops": len(extra), "sources": len(_SQUARE)}}
+
 
 _base = X.make(
     "C21", _judge_with_groups,
-    quick=X.std_quick(ops=OPS.REWRITE + OPS.subset(names=_EXTRA), ml=False, sources=X.std_sources("quick")[1:12:3] + _SQUARE), thorough=X.std_thorough(d3=False, sources=X.std_sources("thorough") + _SQUARE),
+    quick=_quick, thorough=X.std_thorough(d3=False, sources=X.std_sources("thorough") + _SQUARE),
     rule="every program of the E1 depth<=2 space: __frisky_graph__() and __frisky_records_chunks__() either decline with NotImplementedError (counted) or yield records with unique keys, every dependency produced and declared, no cycle, every __frisky_output_keys__() key produced, and an in-process record executor (resolving TaskRefs in nested list/tuple/dict arguments) computes block values equal to __dask_graph__()'s for every output key; plus groups of 2-3 collections sharing subtrees walked with one shared `seen` set. Non-trivial = multi-block program",
     assumptions=["without the native extension every node goes through the generic GraphRecordsLayer", "programs whose dask graph itself fails are judged by C01/C04, not here"],
     floors={"record_graphs": 2000},
